@@ -6,6 +6,7 @@ Exit-code discipline (DESIGN section 10):
   2  tool error (TLC crash / parse error / timeout, cargo failure, malformed stream ...)
 """
 import glob
+import shutil
 import hashlib
 import json
 import os
@@ -188,6 +189,18 @@ _SUMMARY_RE = re.compile(r'(\d+) states generated, (\d+) distinct states found, 
 _DEPTH_RE = re.compile(r'The depth of the complete state graph search is (\d+)')
 
 
+def _park(tmpdir, name):
+    """move the private directory of a run that did not complete out of the cache area"""
+    failed = os.path.join(WORK, 'tlc', name)
+    shutil.rmtree(failed, ignore_errors=True)
+    os.makedirs(os.path.dirname(failed), exist_ok=True)
+    try:
+        os.rename(tmpdir, failed)
+    except OSError:
+        return tmpdir
+    return failed
+
+
 def tlc(name, module_text, cfg_text, workers=8, timeout=1200, heap='8g', cache=True, props=(), env=None,
         simulate=None, coverage=False, depth=None):
     """Run TLC on a generated instance module.  Returns a dict with the output
@@ -210,7 +223,13 @@ def tlc(name, module_text, cfg_text, workers=8, timeout=1200, heap='8g', cache=T
             r['cached'] = True
             log(f'[tlc] {name}: cached ({r["distinct"]} distinct states)')
             return r
+        # computed in a private directory and renamed into place when complete: two checks that need the same instance at the
+        # same time never see each other's half-written output
+        final_dir = cdir
+        cdir = f'{cdir}.tmp{os.getpid()}'
+        shutil.rmtree(cdir, ignore_errors=True)
     else:
+        final_dir = None
         cdir = os.path.join(WORK, 'tlc', name)
     os.makedirs(cdir, exist_ok=True)
     tla = os.path.join(cdir, modname + '.tla')
@@ -237,6 +256,8 @@ def tlc(name, module_text, cfg_text, workers=8, timeout=1200, heap='8g', cache=T
         with open(out, 'w') as f:
             p = subprocess.run(cmd, stdout=f, stderr=subprocess.STDOUT, timeout=timeout, env=e, cwd=cdir)
     except subprocess.TimeoutExpired:
+        if final_dir is not None:
+            _park(cdir, name)
         raise ToolError(f'TLC timed out after {timeout}s on {name}')
     wall = time.time() - t0
     r = {'name': name, 'out': out, 'module': tla, 'cfg': cfg, 'wall_s': round(wall, 2), 'cached': False,
@@ -264,9 +285,25 @@ def tlc(name, module_text, cfg_text, workers=8, timeout=1200, heap='8g', cache=T
     r['ok'] = (p.returncode == 0 and 'Model checking completed. No error has been found.' in text) or \
               (simulate is not None and p.returncode == 0)
     if not r['ok'] and r['violation'] is None:
+        if final_dir is not None:
+            out = out.replace(cdir, _park(cdir, name), 1)
         raise ToolError(f'TLC failed on {name} (exit {p.returncode}); see {out}\n' + '\n'.join(tail[-25:]))
-    if key and r['ok']:
-        json.dump(r, open(os.path.join(cdir, 'meta.json'), 'w'))
+    if final_dir is not None:
+        if r['ok']:
+            for k in ('out', 'module', 'cfg'):
+                r[k] = r[k].replace(cdir, final_dir, 1)
+            json.dump(r, open(os.path.join(cdir, 'meta.json'), 'w'))
+            try:
+                os.rename(cdir, final_dir)
+            except OSError:
+                # somebody else completed the same instance meanwhile: use theirs
+                shutil.rmtree(cdir, ignore_errors=True)
+                r = json.load(open(os.path.join(final_dir, 'meta.json')))
+        else:
+            # keep the failed run where it can be inspected (not as a cache entry)
+            failed = _park(cdir, name)
+            for k in ('out', 'module', 'cfg'):
+                r[k] = r[k].replace(cdir, failed, 1)
     log(f'[tlc] {name}: {r["generated"]} generated, {r["distinct"]} distinct, depth {r["depth"]}, '
         f'{wall:.1f}s' + ('' if r['ok'] else f'  !! {r["violation"]}'))
     return r
